@@ -151,6 +151,7 @@ def check(ctx, run):
             results[q] = [r for r in interp.explore(fi, [], kw, max_paths=200) if not r["raises"] and not any(e["kind"] == "recursion" for e in r["events"])]
         except Unsupported as ex:
             raise AnalysisError(f"{q}: {ex}")
+    growth_rule(ctx, run, results)
     run.require("C11.R1", 9)
     run.require("C11.R2", 9)
     run.require("C11.R7", 4)
@@ -393,3 +394,92 @@ def positive_times_init(t):
         rest = [x for x in flat if not is_init(x)]
         return len(inits) == 1 and all(pos(x) for x in rest)
     return False
+
+
+def growth_rule(ctx, run, results):
+    """R9 (finiteness, the structural part): no intermediate factor of a generator grows exponentially with the step index at a rate that is
+    positive for every admissible parameter (exp(+kappa*dt*k), or a division by exp(-kappa*dt*k)): multiplied by its decaying counterpart the
+    result is mathematically fine but overflows to inf/NaN once rate * n_steps passes ~88 (float32).  Rates are read off the term: exp(c*k + ..)
+    has rate c, products add, quotients subtract, sums and cumulative sums keep the largest; a rate whose sign depends on a free parameter
+    (the drift mu) is not reported."""
+    prog = ctx.prog
+    k = sp.Symbol("k_step", integer=True, nonnegative=True)
+    pos = {n: sp.Symbol(n, positive=True) for n in ("kappa", "dt", "sigma", "theta", "xi", "eta", "lam", "ju", "jd", "js", "T", "N")}
+
+    def scal(t):
+        """sympy value of a step-affine scalar term (k for the time index), or None"""
+        if is_num(t):
+            return sp.nsimplify(t)
+        if isinstance(t, Sym):
+            return pos.get(t.name, sp.Symbol(t.name, real=True))
+        if isinstance(t, Op):
+            if t.op == "arange":
+                return k
+            if t.op in ("to", "as_tensor", "index", "unsqueeze", "float", "double", "expand", "view") and t.args:
+                return scal(t.args[0])
+            if t.op in ("add", "sub", "mul", "div") and len(t.args) == 2:
+                a, b = scal(t.args[0]), scal(t.args[1])
+                if a is None or b is None:
+                    return None
+                return {"add": a + b, "sub": a - b, "mul": a * b, "div": a / b}[t.op]
+            if t.op == "neg":
+                a = scal(t.args[0])
+                return None if a is None else -a
+            if t.op == "square":
+                a = scal(t.args[0])
+                return None if a is None else a ** 2
+            if t.op == "sqrt":
+                a = scal(t.args[0])
+                return None if a is None else sp.sqrt(a)
+        return None
+
+    memo = {}
+
+    def rate(t):
+        """log-growth rate per step of |t| as a sympy expression (0 = bounded / stochastic of bounded scale), None = unknown"""
+        if id(t) in memo:
+            return memo[id(t)]
+        r = sp.Integer(0)
+        if isinstance(t, Op):
+            if t.op == "exp":
+                a = scal(t.args[0])
+                r = sp.diff(a, k) if a is not None and sp.diff(a, k, 2) == 0 else sp.Integer(0)
+            elif t.op == "mul":
+                ra, rb = rate(t.args[0]), rate(t.args[1])
+                r = ra + rb
+            elif t.op == "div":
+                r = rate(t.args[0]) - rate(t.args[1])
+            elif t.op in ("add", "sub", "cat", "stack", "where", "cumsum", "setitem", "maximum", "minimum"):
+                rs = [rate(x) for x in walk_children(t)]
+                r = next((x for x in rs if x.is_positive), next((x for x in rs if x != 0), sp.Integer(0)))
+            elif t.args and isinstance(t.args[0], (Op, Sym)):
+                r = rate(t.args[0])
+        memo[id(t)] = r
+        return r
+
+    def walk_children(t):
+        for a in t.args:
+            if isinstance(a, (Op, Sym)):
+                yield a
+            elif isinstance(a, (list, tuple)):
+                for x in a:
+                    if isinstance(x, (Op, Sym)):
+                        yield x
+
+    run.require("C11.R9", 9)
+    for q, res in results.items():
+        fi = prog.functions[q]
+        short = q.rsplit(".", 1)[-1]
+        bad = []
+        for r_ in res:
+            for o in outputs_of(r_["value"]):
+                for s_ in walk(o):
+                    if isinstance(s_, Op) and s_.op in ("exp", "div", "mul"):
+                        rt = rate(s_)
+                        if rt != 0 and rt.is_positive:
+                            bad.append(f"{s_.op}(...) grows like exp({sp.simplify(rt)} * step)")
+        bad = sorted(set(bad))
+        run.oblige("C11.R9", f"{short}: no factor with a positive exponential growth rate in the step index", not bad, "; ".join(bad[:3]))
+        if bad:
+            run.fail(Finding("C11.R9", q, "; ".join(bad[:3])[:300], "an exponentially growing intermediate factor overflows for long horizons / fast mean reversion, and the series becomes inf or NaN from that step on",
+                             file=str(prog.modules[fi.module].path), line=fi.node.lineno))
